@@ -34,11 +34,36 @@ class LruRule(BaseRule):
         self.cont, self.lock = cont, lock
         self.viol = []
         self.seen = {"remove": 0, "insert": 0, "dispose": 0, "lock": 0}
+        self.accesses = 0
+
+    wants_subscript = True
 
     def _is_cont(self, node):
         return astq.is_self_attr(node, self.cont)
 
+    def getattr(self, it, st, node, base):
+        if base.kind == "self" and node.attr == self.cont and isinstance(node.ctx, ast.Load):
+            # the mapping, by identity (a local alias keeps it); its truthiness is a fact until the next mutation
+            return AV("unk", sym="cont", none=False)
+        return None
+
+    def _mutated(self, st):
+        st.facts.pop("cont", None)
+
+    def subscript(self, it, st, node, base, parts, is_slice):
+        if base.sym == "cont" and not is_slice and isinstance(node.ctx, ast.Load):
+            self._note_access(st, node)
+            s = st.copy()
+            s.ts["lookups"] = s.ts.get("lookups", ()) + ((s.ts.get("regions", 0), "old"),)
+            s.log(node, "LOOKUP old value (subscript)")
+            s2 = st.copy()
+            s2.ts["absent"] = True
+            s2.log(node, "subscript -> KeyError (absent key)")
+            return [Out("normal", s, AV("obj", "old", truth=None, none=None)), Out("raise", s2, exc("builtins.KeyError"))]
+        return None
+
     def _note_access(self, st, node):
+        self.accesses += 1
         if not st.ts.get("lock"):
             self.viol.append(("C17-R1", f"`{ast.unparse(node)[:60]}` touches the mapping outside the lock", st, node))
 
@@ -58,6 +83,7 @@ class LruRule(BaseRule):
 
     def setitem(self, it, st, target, av):
         if self._is_cont(target.value):
+            self._mutated(st)
             self.seen["insert"] += 1
             self._note_access(st, target)
             st.ts["ins"] = st.ts.get("ins", ()) + ((st.ts.get("regions", 0), av.val if av.kind == "obj" else (av.sym or "?")),)
@@ -67,11 +93,24 @@ class LruRule(BaseRule):
         for t in stmt.targets:
             if isinstance(t, ast.Subscript) and self._is_cont(t.value):
                 self._note_access(st, t)
+                self._mutated(st)
                 self.seen["remove"] += 1
                 st.ts["removed"] = st.ts.get("removed", ()) + ("deleted",)
         return None
 
     def for_iter(self, it, st, stmt, itv):
+        if itv.kind == "tuple":
+            # a literal tuple of values (e.g. `(evicted,)` handed to a disposing helper): one iteration per element
+            k = ("titer", it.frame, stmt.lineno)
+            i = st.ts.get(k, 0)
+            if i >= len(itv.val):
+                e = st.copy()
+                e.ts.pop(k, None)
+                return [(e, False)]
+            s = st.copy()
+            s.ts[k] = i + 1
+            it.assign(s, stmt.target, itv.val[i])
+            return [(s, True)]
         if itv.kind == "obj" and itv.val == "all-values":
             # head of an iteration over the removed values: the previous iteration must have disposed its value
             if st.ts.get("iter_open") and not st.ts.get("iter_disp") and st.facts.get("dispose_func", (None, None))[0] is not False:
@@ -94,8 +133,27 @@ class LruRule(BaseRule):
     def call(self, it, st, node, recv, pos, kw):
         f = node.func
         t = ast.unparse(f)
-        if isinstance(f, ast.Attribute) and self._is_cont(f.value):
+        if isinstance(f, ast.Attribute) and f.attr == "append" and recv is not None and recv.kind in ("list", "unk", "obj", "tuple") and pos and pos[0].kind == "obj" and pos[0].val in ("lru", "old") \
+                and isinstance(f.value, ast.Name):
+            # a removed value is kept in a local list for later disposal: the list stands for "the removed values"
+            s = st.copy()
+            lab = pos[0].val
+            rem = tuple(x for x in s.ts.get("removed", ()) if x != lab)
+            s.ts["removed"] = rem if "all-values" in rem else rem + ("all-values",)
+            s.env[it.var(f.value.id)] = AV("obj", "all-values", truth=None, none=False)
+            s.log(node, f"KEEP removed value `{lab}` in {f.value.id} for disposal")
+            return [Out("normal", s, const(None))]
+        if isinstance(f, ast.Attribute) and (self._is_cont(f.value) or (recv is not None and recv.sym == "cont")):
             self._note_access(st, node)
+            if f.attr in ("pop", "popitem", "clear", "update", "setdefault", "__delitem__", "__setitem__"):
+                st = st.copy()
+                self._mutated(st)
+            if f.attr == "move_to_end":
+                s = st.copy()
+                last = kw.get("last") or (pos[1] if len(pos) > 1 else None)
+                s.ts["moved"] = s.ts.get("moved", ()) + ((s.ts.get("regions", 0), last.val if (last is not None and last.kind == "const") else (True if last is None else "?")),)
+                s.log(node, "MOVE key to the most-recently-used end")
+                return [Out("normal", s, const(None))]
             if f.attr == "pop":
                 self.seen["remove"] += 1
                 s = st.copy()
@@ -122,6 +180,7 @@ class LruRule(BaseRule):
             if f.attr == "clear":
                 self.seen["remove"] += 1
                 s = st.copy()
+                s.ts["emptied"] = True
                 s.ts["removed"] = s.ts.get("removed", ()) + ("all-values",)
                 s.log(node, "REMOVE all (clear)")
                 return [Out("normal", s, const(None))]
@@ -131,7 +190,7 @@ class LruRule(BaseRule):
         if t in ("list", "set", "tuple") and pos:
             return [Out("normal", st, pos[0])]
         if t == "len":
-            if node.args and self._is_cont(node.args[0]):
+            if node.args and (self._is_cont(node.args[0]) or (pos and pos[0].sym == "cont")):
                 self._note_access(st, node)
                 s = st.copy()
                 s.ts["sizetest"] = True
@@ -176,18 +235,30 @@ def run(ctx):
     R7 = ctx.rule("C17-R7", "a cached or evicted pool is never closed eagerly: the manager installs no dispose callback and nothing in poolmanager calls close() on a pool (reclamation is the pool's own finalizer)", "E8 who-may-call")
     R8 = ctx.rule("C17-R8", "the container's capacity is num_pools", "E6")
 
-    # ---------------- R1 (syntactic lockset, all methods)
-    n = 0
-    for name, fi in sorted(cls.methods.items()):
-        if name == "__init__":
-            continue
-        for node in astq.walk_fn(fi.node):
-            if astq.is_self_attr(node, cont):
-                n += 1
-                ok = astq.inside_with(node, lambda e: astq.is_self_attr(e, lock)) is not None
-                ctx.ob(R1, fi.qual, f"access `{astq.text(astq.stmt_of(node))[:70]}`", ok,
-                       "" if ok else "the mapping is read/written without holding the lock: a racing thread sees a torn update", node=node)
-    ctx.sites(R1, n, 8, "mapping accesses")
+    # ---------------- R1 (lockset by interpretation: every public method, private helpers inlined at their call sites)
+    def _r1_all():
+        from ..rows import helper_closure
+        n_acc = 0
+        for name, fi in sorted(cls.methods.items()):
+            if name == "__init__" or (name.startswith("_") and not name.startswith("__")):
+                continue
+            rule = LruRule(cont, lock)
+            try:
+                outs, it = run_function(m, fi, rule, RUC, inline=set(helper_closure(m, [fi])) - {fi.qual},
+                                        seeds={("self", "dispose_func"): AV("unk", sym="dispose_func"), ("self", "_maxsize"): AV("unk", sym="maxsize")})
+            except AnalysisError:
+                raise
+            ctx.states += it.budget.steps
+            n_acc += rule.accesses
+            bad = [v for v in rule.viol if v[0] == "C17-R1"]
+            for r_, text, st_, node_ in bad[:3]:
+                ctx.ob(R1, fi.qual, text, False, "the mapping is read/written without holding the lock: a racing thread sees a torn update", witness=st_.witness(), node=node_)
+            if not bad and rule.accesses:
+                ctx.ob(R1, fi.qual, f"{rule.accesses} access(es) to the mapping, all inside a region of the instance lock", True)
+        return n_acc
+
+    n = _r1_all()
+    ctx.sites(R1, n, 8, "mapping accesses on interpreted paths")
     ok = lock_ctor.endswith("RLock")
     ctx.ob(R1, f"{RUC}.__init__", f"lock is re-entrant ({lock_ctor})", ok, "" if ok else "PoolManager holds this lock while calling back into the container: a plain Lock deadlocks")
 
@@ -197,7 +268,8 @@ def run(ctx):
     def interp(name, params=None):
         fi = m.method(RUC, name)
         rule = LruRule(cont, lock)
-        outs, it = run_function(m, fi, rule, RUC, seeds=dict(seeds), params=params or {})
+        from ..rows import helper_closure
+        outs, it = run_function(m, fi, rule, RUC, inline=set(helper_closure(m, [fi])) - {fi.qual}, seeds=dict(seeds), params=params or {})
         ctx.states += it.budget.steps
         for r, text, st, node in rule.viol:
             ctx.ob(r, fi.qual, text, False, "", witness=st.witness(), node=node)
@@ -256,20 +328,40 @@ def run(ctx):
                                "" if ok else f"popitem(last={o.st.ts.get('evict_last')}) evicts the most recently used entry", witness=o.st.witness(), node=fi.node)
                     ctx.ob(R4, fi.qual, "insertion, size test and eviction in one lock region", o.st.ts.get("regions", 0) == 1,
                            f"{o.st.ts.get('regions', 0)} lock regions on this path", witness=o.st.witness(), node=fi.node)
+            if name == "clear":
+                emptied = bool(o.st.ts.get("emptied")) or o.st.facts.get("cont", (None, None))[0] is False
+                ctx.ob(R3, fi.qual, "the mapping is empty when clear() returns", emptied,
+                       "" if emptied else "clear() can return with entries left in the cache", witness=o.st.witness(), node=fi.node)
         ctx.sites(R3, nn, 1, f"normal exits of {name}")
-    ctx.sites(R3, total_removes, 4, "removal sites")
-    # the over-capacity branch must exist and compare against the capacity with `>`
-    fi = m.method(RUC, "__setitem__")
-    tests = [n for n in astq.walk_fn(fi.node) if isinstance(n, ast.If) and f"len(self.{cont})" in astq.text(n.test)]
-    ctx.sites(R4, len(tests), 1, "size tests in __setitem__")
-    for tnode in tests:
-        c = tnode.test
-        ok = isinstance(c, ast.Compare) and len(c.ops) == 1 and isinstance(c.ops[0], ast.Gt) and astq.text(c.comparators[0]) == "self._maxsize" \
-            and astq.text(c.left) == f"len(self.{cont})"
-        ctx.ob(R4, fi.qual, f"size test `{astq.text(c)}` is len > capacity (after insertion)", ok,
-               "" if ok else "the bound is compared differently: the cache may hold more than maxsize entries", node=tnode)
-        ev = [x for x in astq.calls(ast.Module(body=tnode.body, type_ignores=[])) if isinstance(x.func, ast.Attribute) and x.func.attr == "popitem"]
-        ctx.ob(R4, fi.qual, "over-capacity branch evicts", bool(ev), node=tnode)
+    ctx.sites(R3, total_removes, 3, "removal sites")
+    # the bound: after inserting a new key, len(mapping) > capacity <=> the least recently used entry is evicted
+    fi, rule, outs = interp("__setitem__", {"value": AV("obj", "new", truth=True, none=False)})
+    n_sz = 0
+    seen_sz = set()
+    for o in outs:
+        member = None
+        for k_, v_ in o.st.ts.items():
+            if isinstance(k_, tuple) and len(k_) == 4 and k_[0] == "cmp" and k_[2] == "in" and k_[3] == "cont":
+                member = v_
+        absent_ = bool(o.st.ts.get("absent")) or member is False
+        if o.kind == "raise" or not absent_ or (member is True):
+            continue
+        over = o.st.ts.get(("cmp", "size", ">", "maxsize"))
+        alt = {k_: v_ for k_, v_ in o.st.ts.items() if isinstance(k_, tuple) and len(k_) == 4 and k_[0] == "cmp" and "size" in (k_[1], k_[3]) and k_ != ("cmp", "size", ">", "maxsize")}
+        evicted = "lru" in o.st.ts.get("removed", ()) or "lru" in o.st.ts.get("disposed", ())
+        key = (over, tuple(sorted(map(str, alt.items()))), evicted)
+        if key in seen_sz:
+            continue
+        seen_sz.add(key)
+        n_sz += 1
+        if alt and over is None:
+            # an equivalent spelling of the test: maxsize < size
+            lt = o.st.ts.get(("cmp", "maxsize", "<", "size"))
+            over = lt if lt is not None else None
+        ok = over is not None and evicted == over
+        ctx.ob(R4, fi.qual, f"new key: len > capacity is {over} (after insertion) -> evicted={evicted}", ok,
+               "" if ok else f"the bound is compared differently ({sorted(map(str, alt))}) or eviction does not follow it: the cache may hold more than maxsize entries", witness=o.st.witness(), node=fi.node)
+    ctx.sites(R4, n_sz, 2, "new-key paths of __setitem__ (over / within capacity)")
 
     # R5
     fi, rule, outs = interp("__getitem__")
@@ -280,46 +372,131 @@ def run(ctx):
         nn += 1
         pops = o.st.ts.get("pops", ())
         ins = o.st.ts.get("ins", ())
-        ok = len(pops) == 1 and len(ins) == 1 and pops[0][0] == ins[0][0] and ins[0][1] == "old"
+        looks = o.st.ts.get("lookups", ())
+        moved = o.st.ts.get("moved", ())
+        reinsert = len(pops) == 1 and len(ins) == 1 and pops[0][0] == ins[0][0] and ins[0][1] == "old" and not moved
+        move = len(looks) == 1 and len(moved) == 1 and looks[0][0] == moved[0][0] and moved[0][1] is True and not pops and not ins
+        ok = reinsert or move
         v = o.st.view(o.val)
         ok = ok and v.kind == "obj" and v.val == "old"
-        ctx.ob(R5, fi.qual, f"lookup: pops={pops} reinserts={ins} returns={v.val}", ok,
+        ctx.ob(R5, fi.qual, f"lookup: pops={pops} reinserts={ins} lookups={looks} moved-to-end={moved} returns={v.val}", ok,
                "" if ok else "a hit does not move the entry to the most-recently-used end atomically (or returns something else)", witness=o.st.witness(), node=fi.node)
     ctx.sites(R5, nn, 1, "returning paths of __getitem__")
     ctx.ob(R5, fi.qual, "no disposal on lookup", not rule.seen["dispose"], "" if not rule.seen["dispose"] else "a lookup disposes a cached value")
 
     # ---------------- R6
     fi = m.func(f"{PM}.PoolManager.connection_from_pool_key")
-    regions = astq.with_regions(fi.node, lambda e: astq.text(e) == "self.pools.lock")
-    ctx.sites(R6, len(regions), 1, "regions of self.pools.lock in connection_from_pool_key")
-    lookups = [c for c in astq.calls(fi.node) if astq.call_text(c) in ("self.pools.get", "self.pools.__getitem__")]
-    creates = [c for c in astq.calls(fi.node) if astq.call_text(c) == "self._new_pool"]
-    inserts = [n for n in astq.walk_fn(fi.node) if isinstance(n, ast.Subscript) and isinstance(n.ctx, ast.Store) and astq.text(n.value) == "self.pools"]
-    lookups += [n for n in astq.walk_fn(fi.node) if isinstance(n, ast.Subscript) and isinstance(n.ctx, ast.Load) and astq.text(n.value) == "self.pools"]
-    ctx.sites(R6, min(len(lookups), len(creates), len(inserts)), 1, "lookup/create/insert sites")
-    for what, nodes in (("lookup", lookups), ("creation", creates), ("insertion", inserts)):
-        for node in nodes:
-            w = astq.inside_with(node, lambda e: astq.text(e) == "self.pools.lock")
-            ok = w is not None
-            ctx.ob(R6, fi.qual, f"{what} `{astq.text(astq.stmt_of(node))[:60]}` under the container lock", ok,
-                   "" if ok else "check-then-create is not atomic: two racing requests build two pools for one key", node=node)
-    ws = {id(astq.inside_with(n, lambda e: astq.text(e) == "self.pools.lock")) for n in lookups + creates + inserts}
-    ctx.ob(R6, fi.qual, "lookup, creation and insertion share one region", len(ws) == 1 and None.__class__ is not None and id(None) not in ws, f"{len(ws)} distinct regions")
-    # the lookup result decides: a hit returns the cached pool itself
-    hit_ok = False
-    for node in astq.walk_fn(fi.node):
-        if isinstance(node, ast.If) and isinstance(node.test, ast.Name):
-            srcs = astq.assigned_values(fi.node, node.test.id)
-            if any(isinstance(s, ast.Call) and astq.call_text(s) == "self.pools.get" for s in srcs):
-                hit_ok = any(isinstance(s, ast.Return) and astq.text(s.value) == node.test.id for s in node.body)
-    ctx.ob(R6, fi.qual, "a cache hit returns the cached pool object", hit_ok)
+
+    class KeyRule(BaseRule):
+        """lookup / create / insert events of the pool cache with the lock region they happen in; values by identity"""
+
+        def getattr(self, it, st, node, base):
+            if base.kind == "self" and node.attr == "pools":
+                return AV("unk", sym="pools", none=False, truth=True)
+            if base.sym == "pools" and node.attr == "lock":
+                return AV("unk", sym="pools.lock", none=False, truth=True)
+            return None
+
+        def with_stmt(self, it, stmt, st):
+            cur, outs = [st], []
+            locked = False
+            for item in stmt.items:
+                nxt = []
+                for s in cur:
+                    vals, raises = it.eval(s, item.context_expr)
+                    outs += raises
+                    for s2, v in vals:
+                        if v.sym == "pools.lock":
+                            locked = True
+                        nxt.append(s2)
+                cur = nxt
+            if not locked:
+                return super().with_stmt(it, stmt, st)
+            res = list(outs)
+            for s in cur:
+                s = s.copy()
+                s.ts["lock"] = s.ts.get("lock", 0) + 1
+                s.ts["regions"] = s.ts.get("regions", 0) + 1
+                s.log(stmt, "LOCK of the pool cache acquired")
+                for o in it.exec_block(stmt.body, [s]):
+                    o.st.ts["lock"] = o.st.ts.get("lock", 1) - 1
+                    res.append(o)
+            return res
+
+        def _ev(self, st, node, what, extra=None):
+            s = st.copy()
+            s.ts["kev"] = s.ts.get("kev", ()) + ((what, s.ts.get("regions", 0) if s.ts.get("lock") else 0, extra),)
+            s.log(node, what.upper())
+            return s
+
+        def call(self, it, st, node, recv, pos, kw):
+            f = node.func
+            if isinstance(f, ast.Attribute) and recv is not None and recv.sym == "pools":
+                if f.attr in ("get", "__getitem__"):
+                    s = self._ev(st, node, "lookup", ast.unparse(node.args[0]) if node.args else "?")
+                    return [Out("normal", s, AV("unk", sym="cached"))]
+                if f.attr in ("setdefault",):
+                    s = self._ev(st, node, "insert", "setdefault")
+                    return [Out("normal", s, AV("unk", sym="cached", truth=True, none=False))]
+                return [Out("normal", st, UNK)]
+            if isinstance(f, ast.Attribute) and f.attr == "_new_pool" and recv is not None and recv.kind == "self":
+                s = self._ev(st, node, "create")
+                return [Out("normal", s, AV("obj", "fresh", truth=True, none=False))]
+            return None
+
+        wants_subscript = True
+
+        def subscript(self, it, st, node, base, parts, is_slice):
+            if base.sym == "pools" and isinstance(node.ctx, ast.Load):
+                s = self._ev(st, node, "lookup", "subscript")
+                s2 = st.copy()
+                return [Out("normal", s, AV("unk", sym="cached", truth=True, none=False)), Out("raise", s2, exc("builtins.KeyError"))]
+            return None
+
+        def setitem(self, it, st, target, av):
+            bv, _ = it.eval(st, target.value)
+            if bv and bv[0][1].sym == "pools":
+                st.ts["kev"] = st.ts.get("kev", ()) + (("insert", st.ts.get("regions", 0) if st.ts.get("lock") else 0, av.val if av.kind == "obj" else (av.sym or "?")),)
+                st.log(target, "INSERT into the pool cache")
+
+    from ..rows import helper_closure as _hc
+    krule = KeyRule()
+    outs6, it6 = run_function(m, fi, krule, f"{PM}.PoolManager", inline=set(_hc(m, [fi], stop=("_new_pool",))) - {fi.qual})
+    ctx.states += it6.budget.steps
+    rets = [o for o in outs6 if o.kind == "return"]
+    ctx.sites(R6, len(rets), 2, "returning paths of connection_from_pool_key")
+    seen6 = set()
+    n_hit = n_miss = 0
+    for o in rets:
+        kev = o.st.ts.get("kev", ())
+        v = o.st.view(o.val)
+        cached_t = o.st.facts.get("cached", (None, None))[0]
+        key = (kev, v.sym or v.val, cached_t)
+        if key in seen6:
+            continue
+        seen6.add(key)
+        kinds = [k[0] for k in kev]
+        regs = {k[1] for k in kev}
+        if "create" not in kinds:
+            n_hit += 1
+            ok = kinds == ["lookup"] and 0 not in regs and v.sym == "cached" and cached_t is True
+            ctx.ob(R6, fi.qual, f"a cache hit returns the cached pool object (events {kinds}, cached truthy={cached_t})", ok,
+                   "" if ok else "a hit returns something else than the cached pool, or the lookup is made outside the container lock", witness=o.st.witness(), node=fi.node)
+        else:
+            n_miss += 1
+            ok = kinds == ["lookup", "create", "insert"] and len(regs) == 1 and 0 not in regs and kev[2][2] == "fresh" and v.kind == "obj" and v.val == "fresh" and cached_t is False
+            ctx.ob(R6, fi.qual, f"a miss looks up, creates and inserts the same fresh pool inside one region of the container lock (events {[(k[0], k[1]) for k in kev]})", ok,
+                   "" if ok else "check-then-create is not atomic (two racing requests build two pools for one key), or the pool returned is not the one cached", witness=o.st.witness(), node=fi.node)
+    ctx.sites(R6, n_hit, 1, "cache-hit paths")
+    ctx.sites(R6, n_miss, 1, "cache-miss paths")
 
     # ---------------- R7
     init = m.func(f"{PM}.PoolManager.__init__")
     ctor = [c for c in astq.calls(init.node) if astq.call_text(c) == "RecentlyUsedContainer"]
     ctx.sites(R7, len(ctor), 1, "RecentlyUsedContainer construction")
     for c in ctor:
-        has_cb = len(c.args) > 1 or any(k.arg == "dispose_func" for k in c.keywords)
+        cbv = astq.arg(c, 1, "dispose_func")
+        has_cb = cbv is not None and not (isinstance(cbv, ast.Constant) and cbv.value is None)
         ctx.ob(R7, init.qual, f"`{astq.text(c)}` installs no dispose callback", not has_cb,
                "" if not has_cb else "an eviction would close a pool that in-flight responses still use", node=c)
         a0 = astq.arg(c, 0, "maxsize")
